@@ -197,7 +197,8 @@ pub fn run(ctx: &Ctx) -> Report {
         let roots: Vec<Option<u32>> = (0..c.nroots).map(|i| d.tables.iter().find(|t| t.name == format!("$r{i}")).and_then(|t| t.rows.first()).and_then(|r| if let V::Id(x) = r.out { Some(canon(x)) } else { None })).collect();
         for r in roots.iter().flatten() { classes.insert(*r); }
         lines.push(format!("ex run {}", classes.iter().map(|x| x.to_string()).collect::<Vec<_>>().join(" ")));
-        metas.push(Some((eg, d, roots, lines.len() - 1)));
+        lines.push(format!("ex term {}", classes.iter().map(|x| x.to_string()).collect::<Vec<_>>().join(" ")));
+        metas.push(Some((eg, d, roots, lines.len() - 2)));
     }
     let model = run_driver(&lines);
     if let Err(e) = &model { rep.violate("correspondence", "driver-failure", e.clone(), json!({})); }
@@ -213,6 +214,20 @@ pub fn run(ctx: &Ctx) -> Report {
         let multi = d.tables.iter().filter(|t| !t.name.starts_with('$')).flat_map(|t| t.rows.iter()).fold(HashMap::<u32, usize>::new(), |mut m, r| { if let V::Id(o) = r.out { *m.entry(o).or_default() += 1; } m }).values().any(|&n| n >= 2);
         if multi || c.ctors.iter().any(|k| k.cost >= 1 << 62) { rep.note_nontrivial(c); }
         run_case(&mut rep, c, mc.as_ref(), d, eg, roots);
+        // the reconstruction half of the model (theorem C07_extract_term): a root the model can reconstruct must be
+        // extracted by the engine at the same cost, and a root the engine extracts must be reconstructible in the model
+        if let Ok(m) = &model { let line = &m[*at + 1]; if line != "fuel-exhausted" {
+            if line.starts_with("repair=1") { rep.count("model_grounded_repairs", 1); }
+            let tm: HashMap<u32, Option<u64>> = line.split_whitespace().filter_map(|kv| { let (k, v) = kv.split_once('=')?; Some((k.parse().ok()?, v.parse().ok())) }).collect();
+            if line.contains("=stuck") { rep.violate("theorem", "c07-model-reconstruct-stuck", format!("the Lean reconstruction got stuck on a grounded class, contradicting C07_extract_term: {line}"), json!({"program": header(c) + &c.cmds.join("\n")})); }
+            for i in 0..c.nroots { let Some(cls) = roots[i] else { continue };
+                let mut e2 = eg.clone();
+                let got = match engine::run_outputs(&mut e2, &format!("(extract $r{i})")) { Ok(outs) => match outs.into_iter().next() { Some(CommandOutput::ExtractBest(_, cost, _)) => Some(cost), _ => None }, Err(_) => None };
+                let want = tm.get(&cls).cloned().flatten();
+                rep.count("reconstructions_vs_model", 1);
+                if got != want { rep.violate("correspondence", "c07-term-model-mismatch", format!("(extract $r{i}): the engine returns a term of cost {got:?}, the Lean pipeline (rank-guarded edges + grounded repair + reconstruction) {want:?}"), json!({"program": format!("{}\n(extract $r{i})", header(c) + &c.cmds.join("\n"))})); break; }
+            }
+        } }
     }
     rep
 }
